@@ -757,3 +757,74 @@ pub fn soft_exempt(r: &mut Rng) -> (Universe, Prob) {
     let reqs = if r.chance(2, 3) { vec![Req::Single(h_any)] } else { vec![] };
     (u, Prob { reqs, cons: vec![], soft })
 }
+
+/// `conflict-chain`: a solve that goes through MANY learnt conflicts (the uniform families top out
+/// at about six per solve). root requires a and b (best candidate b=2); a=1 requires c (2 | 1);
+/// c=2 cannot be combined with x=1; b=2 requires w=1, which reaches x=1 through a chain of `k`
+/// links. Every link costs the solver one or two conflicts (g<i>=1 rules out the preferred
+/// versions of h<i> that j<i>=1 asks for) before it gets to the next link, so by the time the
+/// solver finds out that c=2 and x=1 exclude each other it has learnt ~k clauses. The valid answer
+/// with the best candidates of both direct requirements is {a=1, b=2, c=1, ...}: whatever counters,
+/// intervals or activity effects depend on the number of conflicts, c=2 has to be revised, not b=2.
+pub fn conflict_chain(r: &mut Rng) -> (Universe, Prob) {
+    let mut u = Universe::default();
+    let k = if crate::report::small() { r.below(5) } else { r.below(72) } as usize;
+    let a1 = u.solv("a", 1);
+    let b2 = u.solv("b", 2);
+    u.solv("b", 1);
+    let c2 = u.solv("c", 2);
+    u.solv("c", 1);
+    let w1 = u.solv("w", 1);
+    u.solv("x", 1);
+    let c_any = u.vs("c", 1, 3);
+    u.add_req(a1, Req::Single(c_any));
+    let x_none = u.vs("x", 0, 1);
+    u.add_con(c2, x_none);
+    let w_any = u.vs("w", 1, 2);
+    u.add_req(b2, Req::Single(w_any));
+    let mut parent = w1;
+    let deep_h = r.chance(1, 3);
+    for i in 0..k {
+        let (f, g, j, h) = (format!("f{i}"), format!("g{i}"), format!("j{i}"), format!("h{i}"));
+        let f1 = u.solv(&f, 1);
+        let fv = u.vs(&f, 1, 2);
+        u.add_req(parent, Req::Single(fv));
+        match if r.chance(1, 8) { 2 } else { r.below(2) } {
+            2 => {} // a plain link without a conflict
+            variant => {
+                let g1 = u.solv(&g, 1);
+                let j1 = u.solv(&j, 1);
+                let top = if deep_h && variant == 1 { 3 } else { 2 };
+                for v in (1..=top).rev() {
+                    u.solv(&h, v);
+                }
+                let gv = u.vs(&g, 1, 2);
+                let jv = u.vs(&j, 1, 2);
+                if r.chance(1, 2) {
+                    u.add_req(f1, Req::Single(gv));
+                    u.add_req(f1, Req::Single(jv));
+                } else {
+                    u.add_req(f1, Req::Single(jv));
+                    u.add_req(f1, Req::Single(gv));
+                }
+                let h_low = u.vs(&h, 1, 2);
+                u.add_con(g1, h_low);
+                let h_any = u.vs(&h, 1, top + 1);
+                u.add_req(j1, Req::Single(h_any));
+            }
+        }
+        parent = f1;
+    }
+    let xv = u.vs("x", 1, 2);
+    u.add_req(parent, Req::Single(xv));
+    let ra = u.vs("a", 1, 2);
+    let rb = u.vs("b", 1, 3);
+    u.finalize();
+    if r.chance(1, 4) {
+        for p in &mut u.pkgs {
+            p.hint = if r.chance(1, 2) { Hint::All } else { Hint::None };
+        }
+    }
+    let reqs = if r.chance(1, 2) { vec![Req::Single(ra), Req::Single(rb)] } else { vec![Req::Single(rb), Req::Single(ra)] };
+    (u, Prob { reqs, cons: vec![], soft: vec![] })
+}
